@@ -80,6 +80,7 @@ fn main() {
         "routing" => routing::run(&args),
         "outport" => outport::run(&args),
         "pg" => pg::run(&args),
+        "pg_race" => pg::race(&args),
         "rpc" => rpc::run(&args),
         "timers" => timers::run(&args),
         "select_listen" => select::listen(&args),
@@ -95,6 +96,7 @@ fn main() {
         "elect_search" => cluster::elect_search(&args),
         "frame_len" => cluster::frame_len(&args),
         "codec" => cluster::codec(&args),
+        "read_n" => cluster::read_n(&args),
         other => {
             eprintln!("unknown scenario {other}");
             std::process::exit(3);
